@@ -69,8 +69,10 @@ def judge(ctx, case, accepted, verified, sent_nonce, path_kind, variant=None, re
         else:
             sig = "accepted-invalid:" + clause
         ctx.violation(sig, "ID token accepted although it violates %s (path %s, fault %s, setting %s, alg %s, "
-                           "signer %s, claims %s)" % (bad, case["path"], case["fault"], case["cfg"], tok["alg"],
-                                                       tok["signer"], tok["claims"]), rec)
+                           "signer %s, kid %s, delivered %s, claims %s)"
+                      % (bad, case["path"], case["fault"], case["cfg"], tok["alg"], tok["signer"], tok["kid"],
+                         ("as JWE %s around the JWS" % (tok["wrap"],)) if tok.get("wrap") else "as plain JWS",
+                         tok["claims"]), rec)
     if accepted and verified is not None and case["ctx"].get("forged") is not None:
         if verified.get("sub") == "admin":
             ctx.violation("forged-verified-claim-kept", "a __verified_id_token parameter supplied by the sender "
@@ -118,8 +120,8 @@ def run_msg(ctx, clock, settings, faults_by_path, variants, pick=None):
 def run_svc(ctx, clock, settings, faults_by_path, pick):
     traces = []
     for setting in settings:
-        world = H.make_world(clock, issuers=(H.ISS,), **{k: setting[k] for k in
-                                                         ("sigalg", "reg", "allow_none", "skew", "allow_missing_kid")})
+        world = H.make_world(clock, issuers=(H.ISS,), enc=setting.get("enc"), dec=setting.get("dec", True),
+                             **{k: setting[k] for k in ("sigalg", "reg", "allow_none", "skew", "allow_missing_kid")})
         for path in ("svc_authz", "svc_token"):
             for delivery in deliveries(path):
                 for fname, ffn in [("none", None)] + faults_by_path[path]:
@@ -166,7 +168,7 @@ def malformed_stream(ctx, clock):
     def b(x):
         return H.b64u(x if isinstance(x, bytes) else json.dumps(x).encode())
     for path in ("svc_authz", "svc_token"):
-        for variant in range(40):
+        for variant in range(44):
             w = H.fresh_world(world)
             clock.now = H.T0
             st, nonce = w.begin(H.ISS, "code id_token" if path == "svc_authz" else "code")
@@ -202,6 +204,9 @@ def malformed_stream(ctx, clock):
                 ("id_token-null", None, False), ("dup-claims", h + "." + b(json.dumps(claims)[:-1].encode() + b', "sub": "admin"}') + "." + sg, False),
                 ("unicode-escaped-sub", h + "." + b(json.dumps(claims).replace("diana", "dian\\u0061").encode()) + "." + sg, False),
                 ("lower-cased", good.lower(), False), ("signature-bit-flip", h + "." + p + "." + b(bytes([raw[0] ^ 1]) + raw[1:]), False),
+                ("jwe-around-bare-claims", H.mint_tok({"alg": "RS256", "signer": "iss_rsa1", "kid": "r1", "claims": claims, "wrap": H.WRAPS[0][1]}).split(".")[0]
+                 and __import__("cryptojwt.jwe.jwe", fromlist=["JWE"]).JWE(json.dumps(claims), alg="RSA-OAEP", enc="A256GCM").encrypt(keys=[H.keys()["rp_enc"]]), False),
+                ("jwe-truncated", H.mint_tok({"alg": "RS256", "signer": "iss_rsa1", "kid": "r1", "claims": claims, "wrap": H.WRAPS[0][1]})[:-6], False),
                 ("nul-byte", good + "\x00", False), ("dot-prefixed", "." + good, False), ("bytes-genuine", good.encode(), True),
             ]
             if variant >= len(items):
@@ -233,6 +238,29 @@ def malformed_stream(ctx, clock):
                               % (name, out[1]), rec)
             if out[0] == "err" and before != after:
                 ctx.violation("rejected-but-stored", "refused (%s, %s) but the client state changed" % (name, out[1]), rec)
+
+
+def encrypted_matrix(rng, faults, quick):
+    """The JWE dimension crossed with the fault matrix: a well-formed JWE for the RP's key around every
+    signature / algorithm / key / kid fault and a sample of the claim faults; every other JWE variant (foreign
+    recipient key, other key-management algorithm, other content encryption) around the genuine JWS and the
+    wrong-algorithm tokens; and the genuine JWS delivered plain."""
+    out = {}
+    for path, fl in faults.items():
+        header = [(n, f) for n, f in fl if n.startswith(("alg:", "key:", "kid:", "sig:"))]
+        claims = [(n, f) for n, f in fl if is_core(n) and not n.startswith(("alg:", "key:", "kid:", "sig:", "forged", "resp-"))]
+        sample = claims if not quick else claims[::4] + rng.sample(claims, 8)
+        good = H.WRAPS[0][1]
+        rows = [("jwe:good", H.wrapped_fault(good, None))]
+        rows += [("jwe:good + " + n, H.wrapped_fault(good, f)) for n, f in header + sample]
+        few = [(n, f) for n, f in header if n in ("alg:ES256-iss", "alg:HS256-client-secret", "alg:RS256-iss",
+                                                    "alg:none-unsigned", "key:foreign-rsa-same-kid")]
+        for wname, w in H.WRAPS[1:]:
+            rows.append((wname, H.wrapped_fault(w, None)))
+            rows += [(wname + " + " + n, H.wrapped_fault(w, f)) for n, f in few]
+        rows += [("plain + " + n, f) for n, f in few]
+        out[path] = rows
+    return out
 
 
 def random_pairs(rng, faults, n):
@@ -310,7 +338,7 @@ def run(ctx):
         #      allow-none / skew 10 / allow_missing_kid, the other kwargs variants on one setting
         msg_cases += run_msg(ctx, clock, principal, faults, full, main_delivery)
         rest = [s for s in coupled if s["reg"] == "dynamic" and s not in principal]
-        msg_cases += run_msg(ctx, clock, rest, core, full, main_delivery)
+        msg_cases += run_msg(ctx, clock, rest[::2], core, full, main_delivery)
         msg_cases += run_msg(ctx, clock, principal[:1], core, others, main_delivery)
         # ---- service path: the whole matrix under two settings, the core matrix under eight more, the
         #      header faults under every static setting
@@ -331,6 +359,11 @@ def run(ctx):
         traces += run_svc(ctx, clock, [s for s in coupled if s["reg"] == "dynamic"], faults, everything)
         traces += run_svc(ctx, clock, [s for s in H.SETTINGS if not (s in coupled and s["reg"] == "dynamic")], faults,
                           main_delivery)
+    # ---- the ID Token delivered as a JWE around the JWS
+    enc_faults = encrypted_matrix(rng, faults, ctx.quick)
+    msg_cases += run_msg(ctx, clock, [s for s in H.ENC_SETTINGS if s["reg"] == "dynamic"], enc_faults, full, main_delivery)
+    traces += run_svc(ctx, clock, H.ENC_SETTINGS if not ctx.quick else H.ENC_SETTINGS[:1] + H.ENC_SETTINGS[5:], enc_faults,
+                      main_delivery)
     # ---- random fault pairs
     npairs = 120 if ctx.quick else 600
     pair_faults = {p: random_pairs(rng, faults[p], npairs) for p in H.PATHS}
